@@ -79,6 +79,9 @@ def part_cmd(part, overlay, tier):
         cmd.append("-asan")
     elif part.get("checkptr", True):
         cmd.append("-gcflags=all=-d=checkptr")
+    if os.environ.get("VERIF_COVER") and not part.get("fuzz") and not part.get("instrument"):
+        # experiments only: statement coverage of the library by this part (merged by tools/coverage.sh)
+        cmd += ["-coverpkg", LIBMOD + "/...", "-coverprofile", os.path.join(os.environ["VERIF_COVER"], "%s.cov" % part["name"])]
     if part.get("fuzz"):
         cmd += ["-fuzz", part["fuzz"], "-fuzztime", part["fuzztime"][tier], "-parallel", "16"]
     cmd.append(pkg)
